@@ -13,7 +13,7 @@ import (
 
 func init() {
 	register(&Rule{
-		ID: "GR", Props: []string{"C02", "C04"}, Min: 2,
+		ID: "GR", Props: []string{"C02", "C04"}, Min: 4,
 		Doc: `"any set of records … once written by the toolkit": the set must be writable. In pkg/obiformats the argument of bytes.Buffer.Grow (followed through the local variables defined once) is
 either a call of the builtin min — the estimate is bounded — or holds no product of two quantities that are not constants: FormatFastaBatch and FormatFastqBatch multiplied the size of the title
 of the FIRST record by the number of records of the batch, and Grow really allocates and clears that amount — a dereplicated sequence present in 40000 samples followed by 30000 singletons
@@ -35,6 +35,31 @@ of the FIRST record by the number of records of the batch, and Grow really alloc
 						if ds := defs[info.ObjectOf(id)]; len(ds) == 1 && ds[0] != nil {
 							arg = ast.Unparen(ds[0])
 						}
+					}
+					// Grow panics on a negative count: an estimate computed with a subtraction is wrapped in max(0, …)
+					hasSub := false
+					ast.Inspect(arg, func(m ast.Node) bool {
+						if b, ok := m.(*ast.BinaryExpr); ok && b.Op == token.SUB {
+							hasSub = true
+						}
+						return true
+					})
+					nonNeg := !hasSub
+					if c0, ok := arg.(*ast.CallExpr); ok && len(c0.Args) == 2 {
+						if id, ok := c0.Fun.(*ast.Ident); ok && id.Name == "max" {
+							for k := 0; k < 2; k++ {
+								if v, isC := constInt(info, c0.Args[k]); isC && v >= 0 {
+									nonNeg = true
+									arg = ast.Unparen(c0.Args[1-k])
+								}
+							}
+						}
+					}
+					keyNN := fmt.Sprintf("%s:Grow#%d:not-negative", funcName(p, fd), n)
+					if nonNeg {
+						s.Pass(nil, keyNN, call.Pos(), "the count cannot be negative (no subtraction, or max(0, …))")
+					} else {
+						s.Fail(nil, keyNN, call.Pos(), "the count handed to Grow is computed with a subtraction and nothing keeps it from being negative: a record with a long sequence and a 1-symbol quality string (the CSV reader accepts any qualities column) makes FormatFastqBatch panic — bytes.Buffer.Grow: negative count, exit status 2")
 					}
 					if c2, ok := arg.(*ast.CallExpr); ok {
 						if id, ok := c2.Fun.(*ast.Ident); ok && id.Name == "min" {
